@@ -1,7 +1,362 @@
-//! C27 — not built yet.
-use vcore::Ctx;
+//! C27 — each subscription response holds exactly its own event's data and errors; a streamed query or mutation
+//! yields exactly one response.
+use crate::execcmp::*;
+use async_graphql::*;
+use futures_util::stream::{self, Stream, StreamExt};
+use indexmap::IndexMap;
+use std::sync::{Arc, Mutex};
+use vcore::det::Sim;
+use vcore::{Case, Ctx, Src};
+use vgql::ast::{self as qa, Def, Doc, OpDef, OpKind, Pos, SelSet, Selection};
+use vgql::print::print_plain;
+use vgql::refexec::{execute, show_path, Quirks, Seg};
+use vgql::sch::Sch;
+use vgql::world::{Fault, Node, WVal, World};
+use vschemas::rt::Rt;
 
-pub fn run(_ctx: &mut Ctx) {
-    eprintln!("C27: check not built yet");
-    std::process::exit(2);
+struct Tick(usize);
+
+async fn tres(ctx: &Context<'_>, node: usize, field: &str) -> Result<WVal> {
+    let rt = ctx.data::<Rt>()?.clone();
+    let path = ctx.path_node.map(|p| p.to_string()).unwrap_or_default();
+    rt.start(&path, node, "Tick", field, String::new());
+    rt.gate(format!("#{}:{}", node, path)).await;
+    rt.finish(&path, node, field);
+    if rt.world.fault(node, field).is_some() {
+        return Err(Error::new(format!("fault node#{} {}", node, field)));
+    }
+    Ok(rt.world.value(node, field).cloned().unwrap_or(WVal::Null))
+}
+fn as_int(v: WVal) -> Option<i32> {
+    match v {
+        WVal::Int(i) => Some(i as i32),
+        _ => None,
+    }
+}
+
+#[Object]
+impl Tick {
+    async fn id(&self, ctx: &Context<'_>) -> Result<i32> {
+        Ok(as_int(tres(ctx, self.0, "id").await?).unwrap_or(-1))
+    }
+    async fn val(&self, ctx: &Context<'_>) -> Result<Option<i32>> {
+        Ok(as_int(tres(ctx, self.0, "val").await?))
+    }
+    async fn note(&self, ctx: &Context<'_>) -> Result<Option<String>> {
+        Ok(match tres(ctx, self.0, "note").await? {
+            WVal::Str(s) => Some(s),
+            _ => None,
+        })
+    }
+    async fn strict(&self, ctx: &Context<'_>) -> Result<i32> {
+        Ok(as_int(tres(ctx, self.0, "strict").await?).unwrap_or(0))
+    }
+    async fn next(&self, ctx: &Context<'_>) -> Result<Option<Tick>> {
+        Ok(match tres(ctx, self.0, "next").await? {
+            WVal::Ref(n) => Some(Tick(n)),
+            _ => None,
+        })
+    }
+}
+
+struct Query;
+#[Object]
+impl Query {
+    async fn q(&self) -> i32 {
+        1
+    }
+}
+struct Sub;
+fn events(ctx: &Context<'_>, field: &str) -> Vec<Tick> {
+    let rt = ctx.data_unchecked::<Rt>();
+    let root = rt.world.subscription_root.unwrap_or(0);
+    match rt.world.value(root, field) {
+        Some(WVal::List(l)) => l.iter().filter_map(|x| if let WVal::Ref(n) = x { Some(Tick(*n)) } else { None }).collect(),
+        _ => vec![],
+    }
+}
+#[Subscription]
+impl Sub {
+    async fn ticks(&self, ctx: &Context<'_>) -> impl Stream<Item = Tick> {
+        stream::iter(events(ctx, "ticks"))
+    }
+    async fn tocks(&self, ctx: &Context<'_>) -> impl Stream<Item = Tick> {
+        stream::iter(events(ctx, "tocks"))
+    }
+}
+
+fn gen_world(s: &mut dyn Src) -> World {
+    let mut w = World::default();
+    w.nodes.push(Node { ty: "Query".into(), fields: IndexMap::new() });
+    w.nodes.push(Node { ty: "Sub".into(), fields: IndexMap::new() });
+    w.query_root = 0;
+    w.subscription_root = Some(1);
+    let mut lists: Vec<Vec<WVal>> = vec![vec![], vec![]];
+    let n_events = [1 + s.choose(3), s.choose(3)];
+    for (li, n) in n_events.iter().enumerate() {
+        for _ in 0..*n {
+            let idx = w.nodes.len();
+            let mut f = IndexMap::new();
+            f.insert("id".to_string(), WVal::Int(idx as i64 * 10));
+            f.insert("val".to_string(), if s.chance(1, 4) { WVal::Null } else { WVal::Int(s.range(-5, 5)) });
+            f.insert("note".to_string(), if s.chance(1, 4) { WVal::Null } else { WVal::Str(format!("n{}", idx)) });
+            f.insert("strict".to_string(), WVal::Int(s.range(0, 9)));
+            f.insert("next".to_string(), if idx > 2 && s.bool() { WVal::Ref(2 + s.choose(idx - 2)) } else { WVal::Null });
+            w.nodes.push(Node { ty: "Tick".into(), fields: f });
+            lists[li].push(WVal::Ref(idx));
+            // faults at nullable positions (and, rarely, the non-null one)
+            for field in ["val", "note", "next"] {
+                if s.chance(1, 4) {
+                    w.faults.insert((idx, field.to_string()), Fault::ResolverError);
+                }
+            }
+            if s.chance(1, 10) {
+                w.faults.insert((idx, "strict".to_string()), Fault::ResolverError);
+            }
+        }
+    }
+    w.nodes[1].fields.insert("ticks".into(), WVal::List(lists[0].clone()));
+    w.nodes[1].fields.insert("tocks".into(), WVal::List(lists[1].clone()));
+    w
+}
+
+fn tick_sel(s: &mut dyn Src, depth: usize, alias: &mut u32) -> SelSet {
+    let mut items = vec![Selection::Field(qa::Field::new("id"))];
+    for name in ["val", "note", "strict", "next"] {
+        if s.chance(2, 3) {
+            let mut f = qa::Field::new(name);
+            if name == "next" {
+                if depth == 0 {
+                    continue;
+                }
+                f.sel = tick_sel(s, depth - 1, alias);
+            }
+            if s.chance(1, 4) {
+                *alias += 1;
+                f.alias = Some(qa::Name::new(format!("k{}", alias)));
+            }
+            items.push(Selection::Field(f));
+        }
+    }
+    SelSet::new(items)
+}
+
+/// `migrate_ok` = quirk of C27-F1: with several root fields an error may be attached to the response of another
+/// root field's event (errors are conserved: none lost, none invented; data is always the event's own)
+fn sub_case(schema: &Schema<Query, EmptyMutation, Sub>, sch: &Sch, s: &mut dyn Src, two_roots: bool, migrate_ok: bool) -> Case {
+    let world = gen_world(s);
+    let mut alias = 0;
+    let mut roots = vec!["ticks"];
+    if two_roots {
+        roots.push("tocks");
+    }
+    let mut items = vec![];
+    for r in &roots {
+        let mut f = qa::Field::new(r);
+        f.sel = tick_sel(s, 2, &mut alias);
+        items.push(Selection::Field(f));
+    }
+    let mut doc = Doc { defs: vec![Def::Op(OpDef { pos: Pos::default(), explicit: true, kind: OpKind::Subscription, name: None, vars: vec![], directives: vec![], sel: SelSet::new(items) })] };
+    let text = print_plain(&mut doc);
+    let head = format!("world: {}\nsubscription: {}", world.show(), text);
+    // expected responses per root field, in event order
+    let mut expected: IndexMap<String, Vec<vgql::refexec::RefOut>> = IndexMap::new();
+    for r in &roots {
+        let evs = match world.value(1, r) {
+            Some(WVal::List(l)) => l.clone(),
+            _ => vec![],
+        };
+        for ev in evs {
+            let mut w1 = world.clone();
+            w1.nodes[1].fields.insert(r.to_string(), ev.clone());
+            // the single-event document: only this root field
+            let mut d1 = doc.clone();
+            if let Def::Op(o) = &mut d1.defs[0] {
+                o.sel.items.retain(|i| matches!(i, Selection::Field(f) if f.name.s == *r));
+            }
+            match execute(sch, &d1, None, &IndexMap::new(), &w1, Quirks::default()) {
+                Ok(o) => expected.entry(r.to_string()).or_default().push(o),
+                Err(e) => return Case::fail(head, format!("HARNESS: reference executor: {:?}", e)),
+            }
+        }
+    }
+    let rt = Rt::new(world.clone());
+    rt.set_gated(true);
+    let out: Arc<Mutex<Vec<Response>>> = Arc::new(Mutex::new(vec![]));
+    let mut st = schema.execute_stream(Request::new(text.clone()).data(rt.clone()));
+    let o2 = out.clone();
+    let mut sim = Sim::new();
+    let t = sim.spawn("stream", Box::pin(async move {
+        while let Some(r) = st.next().await {
+            o2.lock().unwrap().push(r);
+        }
+    }));
+    let mut opened = vec![];
+    let mut steps = 0;
+    loop {
+        if !sim.settle() {
+            return Case::fail(head, "livelock while polling the response stream".to_string());
+        }
+        if sim.is_done(t) {
+            break;
+        }
+        let p = rt.gates.pending();
+        if p.is_empty() {
+            return Case::fail(head, "response stream stalled with no pending gate".to_string());
+        }
+        let k = s.choose(p.len());
+        opened.push(p[k].1.clone());
+        rt.gates.open(p[k].0);
+        steps += 1;
+        if steps > 10_000 {
+            return Case::fail(head, "step bound exceeded".to_string());
+        }
+    }
+    let responses: Vec<Response> = std::mem::take(&mut *out.lock().unwrap());
+    // a rejected request (e.g. several root fields rejected by validation) is a single error response
+    let total_events: usize = expected.values().map(|v| v.len()).sum();
+    if two_roots && responses.len() == 1 && responses[0].data == Value::Null && !responses[0].errors.is_empty() && responses[0].errors.iter().all(|e| e.path.is_empty()) {
+        return Case::pass(head).class("two-root-fields-rejected");
+    }
+    if responses.len() != total_events {
+        return Case::fail(head, format!("{} responses for {} events (gate order {:?})", responses.len(), total_events, opened));
+    }
+    let mut seen: IndexMap<String, usize> = IndexMap::new();
+    let mut interleaved = false;
+    let mut last_root: Option<String> = None;
+    let mut with_errors = 0;
+    let mut migrated = false;
+    let mut all_expected: Vec<String> = vec![];
+    let mut all_reported: Vec<String> = vec![];
+    for resp in &responses {
+        let data = resp_data(resp);
+        let root = match &data {
+            serde_json::Value::Object(m) if m.len() == 1 => m.keys().next().unwrap().clone(),
+            serde_json::Value::Object(m) => return Case::fail(head, format!("an event response carries {} root keys: {}", m.len(), data)),
+            _ => match resp.errors.iter().find_map(|e| e.path.first()) {
+                Some(PathSegment::Field(f)) => f.clone(),
+                _ => return Case::fail(head, format!("cannot attribute a response without data to a root field: errors {:?}", resp.errors)),
+            },
+        };
+        if let Some(l) = &last_root {
+            if *l != root {
+                interleaved = true;
+            }
+        }
+        last_root = Some(root.clone());
+        let k = *seen.get(&root).unwrap_or(&0);
+        seen.insert(root.clone(), k + 1);
+        let want = match expected.get(&root).and_then(|v| v.get(k)) {
+            Some(w) => w,
+            None => return Case::fail(head, format!("response #{} for root field {} has no corresponding event", k, root)),
+        };
+        if !want.errors.is_empty() {
+            with_errors += 1;
+        }
+        if migrate_ok {
+            // quirk mode: data must still be the event's own; errors are compared globally below
+            let wd = want.data.clone().unwrap_or(serde_json::Value::Null);
+            if wd != resp_data(resp) {
+                return Case::fail(head, format!("event #{} of `{}`: data differs: expected {} got {}", k, root, wd, resp_data(resp)));
+            }
+            if compare_errors(want, resp).is_err() {
+                migrated = true;
+            }
+            for e in &want.errors {
+                all_expected.push(format!("{}@{}:{}", show_path(&e.path), e.loc.line, e.loc.col));
+            }
+            for (p, l, _) in resp_errors(resp) {
+                all_reported.push(format!("{}@{}", show_path(&p), l.first().map(|x| format!("{}:{}", x.line, x.col)).unwrap_or_default()));
+            }
+            continue;
+        }
+        if let Err(e) = compare(want, resp) {
+            return Case::fail(head, format!("event #{} of `{}` (gate order {:?}): {}; response errors: {:?}", k, root, opened, e, resp.errors.iter().map(|e| format!("{} @{:?}", e.message, e.path)).collect::<Vec<_>>()));
+        }
+        // the errors must be this event's own: messages carry the node id
+        let node_of_event = match world.value(1, &root) {
+            Some(WVal::List(l)) => match &l[k] {
+                WVal::Ref(n) => *n,
+                _ => 0,
+            },
+            _ => 0,
+        };
+        let _ = node_of_event;
+        for e in &resp.errors {
+            // fault node#N field: N must be reachable from this event through the error's path (`next` links)
+            if let Some(rest) = e.message.strip_prefix("fault node#") {
+                let n: usize = rest.split(' ').next().unwrap_or("0").parse().unwrap_or(0);
+                let ok = want.touches.iter().any(|t| t.node == n && e.path.len() == t.path.len() && show_path(&t.path) == e.path.iter().map(|s| match s { PathSegment::Field(f) => f.clone(), PathSegment::Index(i) => i.to_string() }).collect::<Vec<_>>().join("."));
+                if !ok {
+                    return Case::fail(head, format!("event #{} of `{}` reports an error of another event: {}", k, root, e.message));
+                }
+            }
+        }
+        let _ = Seg::Idx(0);
+    }
+    if migrate_ok {
+        // nulled regions may legitimately drop inner errors: compare only when no propagation is involved
+        all_expected.sort();
+        all_reported.sort();
+        let propagating = expected.values().flatten().any(|o| o.errors.iter().any(|e| e.nulled != e.path));
+        if !propagating && all_expected != all_reported {
+            return Case::fail(head, format!("errors are not conserved across the responses: expected {:?}, reported {:?}", all_expected, all_reported));
+        }
+        if migrated {
+            return Case::known(head, vec!["C27-F1".into()]).class("two-root-fields").class("errors-migrated");
+        }
+    }
+    Case::pass(head)
+        .nontrivial(with_errors > 0 && (interleaved || responses.len() >= 2))
+        .class(if two_roots { "two-root-fields" } else { "single-root-field" })
+        .class_if(interleaved, "responses-of-root-fields-interleaved")
+        .class_if(with_errors > 0, "events-with-errors")
+}
+
+fn one_response_case(z: &vschemas::z::ZSchema, zsch: &Sch, s: &mut dyn Src, tcfg: &vgql::gentyped::TypedCfg) -> Case {
+    let world = vgql::world::gen_world(zsch, s, &vgql::world::WorldCfg::default());
+    let mut td = vgql::gentyped::gen_typed_doc(zsch, s, tcfg);
+    let text = print_plain(&mut td.doc);
+    let head = format!("world: {}\nquery: {}\nvariables: {}", world.show(), text, vars_json(&td.vars));
+    let want = match execute(zsch, &td.doc, td.op_name.as_deref(), &td.vars, &world, Quirks::default()) {
+        Ok(w) => w,
+        Err(e) => return Case::fail(head, format!("HARNESS: reference executor: {:?}", e)),
+    };
+    let rt = Rt::new(world);
+    let st = z.execute_stream(request(&text, &td.vars, td.op_name.as_deref()).data(rt));
+    let responses: Vec<Response> = vcore::det::block_on(st.collect::<Vec<_>>());
+    if responses.len() != 1 {
+        return Case::fail(head, format!("execute_stream of a {:?} yielded {} responses", td.doc.ops().next().map(|o| o.kind), responses.len()));
+    }
+    match compare(&want, &responses[0]) {
+        Ok(()) => Case::pass(head).nontrivial(true).class("streamed-query-or-mutation"),
+        Err(e) => Case::fail(head, e),
+    }
+}
+
+pub fn run(ctx: &mut Ctx) {
+    ctx.rule = "subscriptions on a derive-built schema whose event objects have nullable failing sub-fields (and rarely a failing non-null one) gated by the deterministic executor; one and two root \
+                fields with 0-3 events each; gate-opening orders generated; every response must carry exactly one root key, equal the reference execution of its own event (data exactly, errors by path+location), \
+                and every reported error must belong to that event (messages carry the node id). Streamed queries/mutations on Z must yield exactly one response equal to the reference. Non-trivial = an event with \
+                errors in a stream of >=2 responses; distinct by rendered case".into();
+    ctx.assume("documents with two subscription root fields are outside the specification (single root field rule): if the implementation rejects them that is accepted; if it accepts them the per-event property must hold");
+    let schema = Schema::build(Query, EmptyMutation, Sub).finish();
+    let mut sch = vgql::sch::from_sdl_text(&schema.sdl()).expect("SDL");
+    for b in vgql::sch::BUILTIN_SCALARS {
+        sch.types.shift_remove(b);
+    }
+    let n = ctx.tier.pick(20_000, 600_000);
+    let f1 = ctx.open("C27-F1");
+    ctx.stream("single-root", n, 300, |s| sub_case(&schema, &sch, s, false, false));
+    if f1 {
+        ctx.excluded("C27-F1");
+        ctx.stream("probe-two-roots", n / 10, 300, |s| sub_case(&schema, &sch, s, true, true));
+    } else {
+        ctx.stream("two-roots", n / 2, 300, |s| sub_case(&schema, &sch, s, true, false));
+    }
+    let z = vschemas::z::build_z(|b| b);
+    let zsch = vschemas::z::z_sch(&z);
+    let mut tcfg = crate::c02::typed_cfg(ctx, "C27");
+    tcfg.ops = vec![OpKind::Query, OpKind::Mutation];
+    ctx.stream("streamed-query-mutation", n / 4, 600, |s| one_response_case(&z, &zsch, s, &tcfg));
 }
